@@ -7,6 +7,7 @@ mod mp;
 mod mpart;
 mod proxy;
 mod sendloop;
+mod settings;
 mod transport;
 mod util;
 
@@ -133,6 +134,7 @@ fn run_all(kind: &str, input: &str, outdir: &str, threads: usize, budget: Durati
                             "loop" => sendloop::run(&sc),
                             "proxy" => proxy::run(&sc),
                             "mpart" => mpart::run(&sc),
+                            "settings" => settings::run(&sc),
                             "charset" => {
                                 if util::gs(&sc, "kind") == "charset" {
                                     let thorough = std::env::var("VERIF_TIER").map(|t| t == "thorough").unwrap_or(false);
